@@ -1,25 +1,69 @@
 import TypstyleModel.Proofs.Sat
-/-! C12 — indentation is governed solely by the indent unit.  Route V: the check evaluates
-`scale u d₁ = d_u` on the implementation's own documents (unit 1 and unit u); the theorems below turn
-that equality into the statement of the property for every width from `Doc.bound` on. -/
-namespace Pretty
+import TypstyleModel.Proofs.Shape
+import TypstyleModel.Model.Printer.Knot
+/-! C12 — indentation is governed solely by the configured indent unit.
+
+The printer model cannot even *see* the unit: it is given the configuration without it
+(`PConfig`) and builds, for every tree, the whole family `u ↦ document at unit u` (`Twin.Doc`), each
+builder operation carrying the kernel-checked proof that the member at `u` is `scale u` of the member
+at 1.  The unit is applied at the very end (`printDoc`).  `print_scale` therefore holds by
+construction for every tree; the renderer theorems R3/R4 turn it into the statement about lines. -/
+namespace Typstyle
+open Pretty
+
+/-- T12.1 (`print_scale`): for every tree, configuration and unit `u ≥ 1`, the document printed at
+unit `u` is `scale u` of the document printed at unit 1 (every indentation step outside comment
+alignment is multiplied by `u`, nothing else differs) — and the same trees are accepted. -/
+theorem C12_print_scale (cfg : Config) (wd : String → Nat) (root : Node) (u : Nat) (hu : 0 < u) :
+    printDoc { cfg with tab := u } wd root =
+      (match printDoc { cfg with tab := 1 } wd root with
+       | .ok (d, calls) => .ok (scale u d, calls)
+       | .error r => .error r) := by
+  unfold printDoc
+  have hp : ({ cfg with tab := u } : Config).toP = ({ cfg with tab := 1 } : Config).toP := rfl
+  rw [hp]
+  cases h : printTwin { cfg := ({ cfg with tab := 1 } : Config).toP, wd := wd } root with
+  | error r => rfl
+  | ok p =>
+    obtain ⟨d, calls⟩ := p
+    simp only
+    rw [d.rel u hu]
 
 /-- R4: from width `nsum + tlen` on, the layout does not depend on the width (no line needs wrapping). -/
 theorem C12_nonwrapping_width_exists (w : Nat) (d : Doc) (h : d.bound ≤ w) :
     best w 0 [⟨0, .brk, d⟩] = bestInf 0 [⟨0, .brk, d⟩] := pretty_saturates w d h
 
-/-- R3: at a non-wrapping width, scaling every indentation step by `u` leaves every text atom and
-the line structure unchanged and multiplies the indentation of every line by exactly `u`. -/
+/-- R3 (exact): at a non-wrapping width, scaling every indentation step by `u` leaves every text atom
+and the line structure unchanged and multiplies the indentation of every line by exactly `u`
+(documents without `align`, i.e. without multi-line comments). -/
 theorem C12_indent_scales (u : Nat) (d : Doc) (h : NoAlign d) :
     bestInf 0 [⟨0, .brk, scale u d⟩] = (bestInf 0 [⟨0, .brk, d⟩]).map (scaleAtom u) := by
   have := bestInf_scale u 0 0 [⟨0, .brk, d⟩] (by intro c hc; simp at hc; subst hc; exact h)
   simpa [scaleCmd] using this
 
-/-- Combined: for the two documents of one input (unit 1 and unit `u`), related by `scale`, and any
-widths at which neither wraps, the outputs differ only in leading blanks, by the factor `u`. -/
+/-- R3 (all documents, comments included): at non-wrapping widths the outputs for two units have the
+same text atoms and the same line structure; only leading blanks can differ. -/
+theorem C12_units_same_lines (u w w' : Nat) (d : Doc) (hw : d.bound ≤ w) (hw' : (scale u d).bound ≤ w') :
+    (best w' 0 [⟨0, .brk, scale u d⟩]).map Atom.erase = (best w 0 [⟨0, .brk, d⟩]).map Atom.erase := by
+  rw [C12_nonwrapping_width_exists w' _ hw', C12_nonwrapping_width_exists w d hw]
+  exact bestInf_scale_same_lines u d
+
+/-- Combined (exact form): for the documents of one input at unit 1 and at unit `u`, and any widths
+at which neither wraps, the outputs differ only in leading blanks, by exactly the factor `u`. -/
 theorem C12_units_differ_only_by_ratio (u w w' : Nat) (d : Doc) (h : NoAlign d)
     (hw : d.bound ≤ w) (hw' : (scale u d).bound ≤ w') :
     best w' 0 [⟨0, .brk, scale u d⟩] = (best w 0 [⟨0, .brk, d⟩]).map (scaleAtom u) := by
   rw [C12_nonwrapping_width_exists w' _ hw', C12_nonwrapping_width_exists w d hw, C12_indent_scales u d h]
 
-end Pretty
+/-- End to end on the model: for every accepted tree without multi-line comments, and widths at
+which neither output wraps, the output at unit `u` is the output at unit 1 with the indentation of
+every line multiplied by `u`. -/
+theorem C12_outputs_differ_only_by_ratio (cfg : Config) (wd : String → Nat) (root : Node) (u w w' : Nat) (hu : 0 < u)
+    (d : Doc) (calls : Nat) (h1 : printDoc { cfg with tab := 1 } wd root = .ok (d, calls)) (hna : NoAlign d)
+    (hw : d.bound ≤ w) (hw' : (scale u d).bound ≤ w') :
+    ∃ du, printDoc { cfg with tab := u } wd root = .ok (du, calls) ∧
+      best w' 0 [⟨0, .brk, du⟩] = (best w 0 [⟨0, .brk, d⟩]).map (scaleAtom u) := by
+  refine ⟨scale u d, ?_, C12_units_differ_only_by_ratio u w w' d hna hw hw'⟩
+  rw [C12_print_scale cfg wd root u hu, h1]
+
+end Typstyle
